@@ -119,7 +119,8 @@ def make_array(arr, names=None, ds=None, name=None):
 
     nm = names or Names()
     # a missing value in the input is written as "nan" or as the distinguished integer NAN_INT (the form TLC can read)
-    data = np.array([float("nan") if v in ("nan", 2 ** 31 - 7) else float(v) for v in arr["flat"]], dtype="float64").reshape(arr["shape"])
+    special = {"nan": float("nan"), 2 ** 31 - 7: float("nan"), 2 ** 31 - 9: float("inf"), -(2 ** 31 - 9): float("-inf")}
+    data = np.array([special[v] if v in special else float(v) for v in arr["flat"]], dtype="float64").reshape(arr["shape"])
     if arr.get("den", 1) != 1:
         data = data / arr["den"]               # the record holds den x the real values (halves, when den = 2)
     if arr.get("dtype") in ("float32", "int64", "int32"):
